@@ -237,6 +237,46 @@ def written : ADoc → Layout → ADoc
   | [], _ => []
   | c :: cs, ls => writtenCmd c (ls.headD {}) :: written cs ls.tail
 
+/-- no case mask on entry types and field names (the layout writes them as the document has them) -/
+def plainFieldIds : List (Str × Value) → List FieldLayout → Bool
+  | [], _ => true
+  | _ :: fs, ls => (ls.headD {}).mask = [] && plainFieldIds fs ls.tail
+
+def plainIds : ADoc → Layout → Bool
+  | [], _ => true
+  | .entry _ _ fs :: cs, ls => (ls.headD {}).mask = [] && plainFieldIds fs (ls.headD {}).fields && plainIds cs ls.tail
+  | _ :: cs, ls => plainIds cs ls.tail
+
+/-- an entry with the case of the identifiers the reader stores as written (original type, field
+names, role names) forgotten; key, lower-cased type, values, persons and all orders are kept -/
+def ciEntry (e : Entry) : Entry :=
+  { e with origType := lower e.origType,
+           fields := e.fields.map fun f => (lower f.1, f.2),
+           persons := e.persons.map fun r => (lower r.1, r.2) }
+
+/-- the document without its junk and `@comment` commands -/
+def stripJunk : ADoc → ADoc
+  | [] => []
+  | .junk _ :: cs => stripJunk cs
+  | .comment _ :: cs => stripJunk cs
+  | c :: cs => c :: stripJunk cs
+
+/-- the entries of a document in order, each with the macro table in force where it stands:
+(table, type, key, fields) -/
+def entriesWith : Macros → ADoc → List (Macros × Str × Str × List (Str × Value))
+  | _, [] => []
+  | m, .entry ty key fs :: cs => (m, ty, key, fs) :: entriesWith m cs
+  | m, c :: cs => entriesWith (stepMacros m c) cs
+
+/-- the database entry of one entry command in closed form: key, type as written and lower-cased,
+the non-person fields in source order under their names as written with expanded and normalised
+values, and one role (name as written) per person field with a non-empty person list -/
+def entryOf (x : Macros × Str × Str × List (Str × Value)) : Entry :=
+  { key := x.2.2.1, type := lower x.2.1, origType := x.2.1,
+    fields := (x.2.2.2.filter fun f => !isPersonField f.1).map fun f => (f.1, normalizeWs (expand x.1 f.2)),
+    persons := (x.2.2.2.filter fun f => isPersonField f.1 && personsOf (normalizeWs (expand x.1 f.2)) ≠ []).map
+      fun f => (f.1, personsOf (normalizeWs (expand x.1 f.2))) }
+
 /-! ### well-formedness -/
 
 /-- white space: only the 29 code points (blank, TAB, LF, VT, FF, CR, …; CRLF is CR LF) -/
